@@ -1,6 +1,8 @@
 use std::{iter, mem::MaybeUninit};
 
-use crate::{IntoInner, IoBuf, IoBufMut, IoBufMutExt, SetLen, VectoredSlice, t_alloc};
+use crate::{
+    IntoInner, IoBuf, IoBufMut, IoBufMutExt, SetLen, SetLenExt, VectoredSlice, t_alloc,
+};
 
 /// A trait for vectored buffers.
 ///
@@ -259,7 +261,7 @@ impl<T: IoBufMut, Rest: IoVectoredBufMut> SetLen for (T, Rest) {
         let rest_len = len - head_len;
 
         // SAFETY: head_len <= self.0.buf_capacity()
-        unsafe { self.0.set_len(head_len) };
+        unsafe { self.0.advance_to(head_len) };
         // SAFETY: propagate
         unsafe { self.1.set_len(rest_len) };
     }
@@ -267,7 +269,7 @@ impl<T: IoBufMut, Rest: IoVectoredBufMut> SetLen for (T, Rest) {
 
 impl<T: IoBufMut> SetLen for (T,) {
     unsafe fn set_len(&mut self, len: usize) {
-        unsafe { self.0.set_len(len) };
+        unsafe { self.0.advance_to(len) };
     }
 }
 
